@@ -408,6 +408,8 @@ def futex_key_kinds(fsrc):
         m = re.search(r"\b%s\s*([&|])\s*[A-Za-z_(]" % name, body)
         if m:
             return m.group(1) == "|"
+        if re.search(r"[&|^+]\s*%s\b" % name, body):
+            understood = False   # combined with something in a form this reader does not model: the probe decides
         return False
     return kind(wb, "FUTEX_WAIT"), kind(kb, "FUTEX_WAKE"), understood
 
